@@ -1,6 +1,6 @@
 (* C05 property theorems ONLY (each closed by an already proved lemma) + assumptions. *)
 From Coq Require Import NArith List String Bool.
-From RV Require Import C05.Types C05.Model C05.Exempt C05.Table C05.Codec C05.Roundtrip Gen.Descriptors.
+From RV Require Import C05.Types C05.Model C05.Exempt C05.Table C05.Codec C05.Roundtrip C05.Whole C05.Run C05.WholeGen Gen.Descriptors.
 Import ListNotations.
 Open Scope N_scope.
 
@@ -50,31 +50,20 @@ Theorem C05_sizes_agree : forallb size_agrees (live table) = true.
 Proof. exact gen_sizes_agree. Qed.
 Print Assumptions C05_sizes_agree.
 
-(* 5. Completeness of the persisted set.  Full strength (every member persisted or legitimately exempt) is
-   REFUTED on the current tree by the recorded gap N_allocated_collisions (read by TRACE as a flag; open finding);
-   with the recorded gaps admitted it holds, and the exempt list is exact (no stale entries).  A new member that is
-   neither in the table nor audited breaks the second theorem at the next run. *)
-Theorem C05_persisted_complete_refuted :
-  exists m, In m sim_members /\ persisted table (m_path m) = false /\ is_exempt (m_path m) = false.
-Proof.
-  pose proof (find_some (fun m => String.eqb (m_path m) "N_allocated_collisions") sim_members) as H.
-  destruct (find (fun m => String.eqb (m_path m) "N_allocated_collisions") sim_members) as [m|] eqn:E;
-    [|vm_compute in E; discriminate E].
-  exists m. destruct (H m eq_refl) as [Hin Hp]. apply String.eqb_eq in Hp.
-  split; [exact Hin|]. rewrite Hp. split; vm_compute; reflexivity.
-Qed.
-Print Assumptions C05_persisted_complete_refuted.
-
-Theorem C05_persisted_complete_partial :
-  forall m, In m sim_members -> persisted table (m_path m) = true \/ is_exempt (m_path m) = true \/ In (m_path m) known_gaps.
+(* 5. Completeness of the persisted set, full strength on the current tree: every member of struct reb_simulation
+   and of the nested integrator structs is written by the regenerated table (as a member or as the count member of
+   an array field) or is in the hand-audited exempt list with a reason class.  A new member that is neither in the
+   table nor audited breaks this theorem at the next run; the exempt list is exact (no stale entries); the list
+   known_gaps (members that are state but not persisted = open findings) is empty. *)
+Theorem C05_persisted_complete :
+  forall m, In m sim_members -> persisted table (m_path m) = true \/ is_exempt (m_path m) = true.
 Proof.
   intros m Hin. pose proof gen_persisted_complete as H. rewrite forallb_forall in H. specialize (H m Hin).
   apply orb_true_iff in H. destruct H as [H|H].
   - apply orb_true_iff in H. tauto.
-  - right; right. unfold is_gap in H. apply existsb_exists in H. destruct H as [x [Hx E]].
-    apply String.eqb_eq in E. subst. exact Hx.
+  - exfalso. unfold is_gap in H. apply existsb_exists in H. destruct H as [x [Hx _]]. exact Hx.
 Qed.
-Print Assumptions C05_persisted_complete_partial.
+Print Assumptions C05_persisted_complete.
 
 Theorem C05_exempt_list_exact :
   forallb (fun e => match member_of sim_members (fst e) with Some _ => negb (persisted table (fst e)) | None => false end) exempt
@@ -83,6 +72,44 @@ Theorem C05_exempt_list_exact :
   = true.
 Proof. exact gen_exempt_exact. Qed.
 Print Assumptions C05_exempt_list_exact.
+
+(* 6. WHOLE TABLE.  For every table satisfying the decidable condition whole_table_okb (each row is found under its
+   own id; array rows have a positive element size divisible by their number of parts; the function-pointer flag
+   field changes no member), every well-formed memory m (simple members of their dtype size, 4-byte little-endian
+   count members - possibly SHARED by several array rows like ri_ias15.N_allocated or N -, arrays of exactly
+   count*element_size bytes, fixed pointers NULL or element_size bytes) and every initial memory m0 with zero array
+   counts and NULL fixed pointers: reading the writer's fields into m0 gives a memory with the same persisted view.
+   Proof: every member write of the reader re-creates the value the writer read (writes_are_values), so each key of
+   the restored memory holds m's value or the untouched initial one; then case split per dtype class. *)
+Theorem C05_whole_roundtrip : forall psz legacy fpid tbl, whole_table_okb legacy fpid tbl = true ->
+  forall m m0 fp, mem_wf psz tbl m -> init_ok tbl m0 ->
+  view psz fpid tbl (mkstate (rfields legacy tbl m0 (view psz fpid tbl (mkstate m fp))) fp) = view psz fpid tbl (mkstate m fp).
+Proof. exact whole_view_roundtrip. Qed.
+Print Assumptions C05_whole_roundtrip.
+
+Theorem C05_whole_table_ok_gen : whole_table_okb legacy_maxrad_id fp_id table = true.
+Proof. exact gen_whole_table_ok. Qed.
+Print Assumptions C05_whole_table_ok_gen.
+
+(* 7. Down to bytes, for the regenerated table: encode the view, run the reader's framing loop, apply the fields to
+   an initial memory, write again: the persisted view is the same (roundtrip) and the bytes are the same
+   (rewrite_stable: writer (reader (writer s)) = writer s). *)
+Theorem C05_bytes_roundtrip_and_rewrite_stable : forall m m0 fp h60,
+  mem_wf particle_size table m -> init_ok table m0 -> List.length h60 = 60%nat ->
+  Forall (field_ok hdr_id end_id) (gen_view m fp) ->
+  let hdr := le_enc 4 hdr_id ++ h60 in
+  let b := encode end_id trailer_size hdr (gen_view m fp) in
+  exists fs, decode hdr_id end_id b = Some (fs, repeat 0 (N.to_nat trailer_size)) /\
+             gen_view (rfields legacy_maxrad_id table m0 fs) fp = gen_view m fp /\
+             encode end_id trailer_size hdr (gen_view (rfields legacy_maxrad_id table m0 fs) fp) = b.
+Proof. exact gen_bytes_roundtrip. Qed.
+Print Assumptions C05_bytes_roundtrip_and_rewrite_stable.
+
+(* non-vacuity of 6 and 7: a concrete memory for the regenerated table (one particle), the empty initial memory *)
+Example C05_whole_hypotheses_inhabited :
+  mem_wf particle_size table example_mem /\ init_ok table empty_mem /\
+  Forall (field_ok hdr_id end_id) (gen_view example_mem false) /\ List.length (gen_view example_mem false) = 121%nat.
+Proof. exact example_mem_wf. Qed.
 
 (* Non-vacuity: a DP7 descriptor with two bodies' worth of data satisfies desc_wf and is written. *)
 Example C05_hypotheses_inhabited :
